@@ -6,7 +6,8 @@
   `a`, `b` of `e`:  build a = build b = machine (XC.program e).
   Proved here: the grammar the parser model transcribes is the grammar of the source, production by
   production (regenerated obligation); **precedence and associativity** (`C03_precedence`,
-  `C03_parenthesisation_irrelevant`): for every expression over numbers, literals, unary minus, the
+  `C03_parenthesisation_irrelevant`): for every expression over numbers, literals, location paths without
+  predicates (absolute, relative, current()-rooted; name, `..` and `.` steps), unary minus, the
   thirteen binary operators, parentheses and function calls with up to three argument expressions (each
   argument again any such expression) — any operator mix, any depth — that carries at least the
   parentheses its shape needs (`PE.fits 0`: a left operand may be of the operator's own level, a right
@@ -14,14 +15,18 @@
   the tree, so two ways of writing one tree compile to the same program, and explicit parentheses around
   any sub-expression change nothing; whitespace in front of any token is insignificant for the lexer
   (`C03_leading_ws`, all grammars, any amount); the program of a tree runs to a value or an error
-  whatever tree it is.  NOT proved: the same with location paths as operands, and the
-  lexer's part of token-level correctness (text → tokens: the operator-name disambiguation) — held by the
-  correspondence stream c03 (two renderings of the same tree, compared with each other and with
-  `XC.program`), i.e. by testing.
+  whatever tree it is; and the **lexer's part** (`C03_text_to_program`, `C03_texts_agree`): the text of such an
+  expression, written as its tokens with any white space between them (none where the next character cannot
+  continue the token: `1-1*1`, `not(1)`), is turned by `build` — decode, lex, parse, CreateProgram — into the machine of the
+  tree, the operator names and `*` being told apart by the preceding token and function names by the `(`
+  that follows; so two such texts of one tree build the same machine.  NOT proved: the same with
+  predicates, deref() and unions; at the text level, numerals with an exponent — held by the correspondence stream c03 (two renderings of the same tree, compared
+  with each other and with `XC.program`), i.e. by testing.
 -/
 import YV.Proofs.XLexWS
 import YV.Proofs.XRun
 import YV.Proofs.XPrec
+import YV.Proofs.XText
 import YV.Spec.XCompile
 import YV.Model.XTables
 import YV.Gen.XPath
@@ -68,6 +73,12 @@ def exCall : PE :=
   .bin .or (.call2 .concat (.lit [120]) (.bin .sub (.num SF.one) (.bin .mul (.num SF.one) (.num SF.one))))
     (.call1 .not (.paren (.bin .eq (.num SF.one) (.num SF.one))))
 example : exCall.fits 0 := by simp [exCall, PE.fits, level, Fn.sig]
+/-- … with location paths as operands: ../a/b + /c * current()/d = . -/
+def exPath : PE :=
+  .bin .eq (.bin .add (.path (.rel .up) [.name [] [97], .name [] [98]])
+      (.bin .mul (.path .abs [.name [] [99]]) (.path .cur [.name [] [100]])))
+    (.path (.rel .dot) [])
+example : exPath.fits 0 := by simp [exPath, PE.fits, level]
 /-- and a shape that needs its parentheses does not fit without them: 1 - (2 - 3) written as 1 - 2 - 3 is
     another tree -/
 example : ¬ (PE.bin .sub (.num SF.one) (.bin .sub (.num SF.one) (.num SF.one))).fits 0 := by
@@ -84,5 +95,137 @@ example : AllWS [⟨32, 1⟩, ⟨9, 1⟩, ⟨10, 1⟩, ⟨13, 1⟩] ∧ ({ line 
   constructor
   · intro r hr; simp at hr; rcases hr with h | h | h | h <;> subst h <;> rfl
   · rfl
+
+/-! ### from the text: lexer and parser together -/
+
+/-- **C03 (text → program).**  An expression of the operator fragment written as its tokens — numerals, literals
+    in either kind of quotes, operator signs and names, parentheses, commas, function names, and location paths
+    of unprefixed names, `..`, `.`, `/` and `current()` (a bare `/` excepted: after it the lexer takes an operator
+    name for a name, XPath 1.0 §3.7) — with any white space
+    (any amount and mix of blank, tab, CR, LF) after each of them and in front of the first, and none at all
+    wherever the next character cannot be taken for a continuation of the token (`glued`: a digit, `.`, `e`, `E`
+    after a numeral; a name character after a name; `=` after `<` or `>`; `/` after `/`; `.` or a digit after `.`):
+    `build` (= NewExpressionMachine of the
+    model: decode, lex, parse, CreateProgram) returns the machine whose program is the postfix code of the
+    expression's tree.  `*`, `and`, `or`, `mod`, `div` are read as operators because of the token before them, a
+    function name because of the `(` after it (XPath 1.0 §3.7). -/
+theorem C03_text_to_program (e : PE) (hf : e.fits 0) (hn : e.lexable) (items : List Item) (hi : items.map (·.tok) = e.toks)
+    (hok : ∀ i ∈ items, i.ok) (hgl : glued items) (lead : List Rune) (hl : ∀ x ∈ lead, isWS x = true) (pm : PfxMap)
+    (hpf : ∀ i ∈ items, ∀ p l, i.tok = .nametest p l → pfxOk pm p = true)
+    (fixed : Bool) (bs : List Nat) (hbs : (decode bs).map (·.cp) = lead ++ renderX items) :
+    build false fixed .expr pm bs = .machine (e.tree.code ++ [.store]) :=
+  text_to_program e hf hn items hi hok hgl lead hl pm hpf fixed bs hbs
+
+/-- … for a text of ASCII bytes the decoding is the identity -/
+theorem C03_text_to_program_ascii (e : PE) (hf : e.fits 0) (hn : e.lexable) (items : List Item) (hi : items.map (·.tok) = e.toks)
+    (hok : ∀ i ∈ items, i.ok) (hgl : glued items) (lead : List Rune) (hl : ∀ x ∈ lead, isWS x = true) (pm : PfxMap)
+    (hpf : ∀ i ∈ items, ∀ p l, i.tok = .nametest p l → pfxOk pm p = true)
+    (fixed : Bool) (ha : ∀ b ∈ lead ++ renderX items, b < 128) :
+    build false fixed .expr pm (lead ++ renderX items) = .machine (e.tree.code ++ [.store]) :=
+  text_to_program e hf hn items hi hok hgl lead hl pm hpf fixed _ (decode_ascii _ ha)
+
+/-- … and white space after every token is always enough -/
+theorem C03_text_to_program_spaced (e : PE) (hf : e.fits 0) (hn : e.lexable) (items : List Item) (hi : items.map (·.tok) = e.toks)
+    (hok : ∀ i ∈ items, i.ok ∧ i.sep ≠ []) (lead : List Rune) (hl : ∀ x ∈ lead, isWS x = true) (pm : PfxMap)
+    (hpf : ∀ i ∈ items, ∀ p l, i.tok = .nametest p l → pfxOk pm p = true)
+    (fixed : Bool) (bs : List Nat) (hbs : (decode bs).map (·.cp) = lead ++ renderX items) :
+    build false fixed .expr pm bs = .machine (e.tree.code ++ [.store]) :=
+  text_to_program e hf hn items hi (fun i h => (hok i h).1) (glued_of_spaced items hok) lead hl pm hpf fixed bs hbs
+
+/-- **C03 (white space, parentheses: texts).**  Two texts of the same tree — whatever white space separates their
+    tokens, whatever redundant parentheses they carry, whichever quotes and numeral spellings they use — build the
+    same machine. -/
+theorem C03_texts_agree (e1 e2 : PE) (h : e1.tree = e2.tree) (h1 : e1.fits 0) (h2 : e2.fits 0)
+    (n1 : e1.lexable) (n2 : e2.lexable)
+    (i1 i2 : List Item) (t1 : i1.map (·.tok) = e1.toks) (t2 : i2.map (·.tok) = e2.toks)
+    (ok1 : ∀ i ∈ i1, i.ok) (ok2 : ∀ i ∈ i2, i.ok) (g1 : glued i1) (g2 : glued i2) (l1 l2 : List Rune)
+    (w1 : ∀ x ∈ l1, isWS x = true) (w2 : ∀ x ∈ l2, isWS x = true) (pm : PfxMap)
+    (p1 : ∀ i ∈ i1, ∀ p l, i.tok = .nametest p l → pfxOk pm p = true)
+    (p2 : ∀ i ∈ i2, ∀ p l, i.tok = .nametest p l → pfxOk pm p = true) (fixed : Bool) (b1 b2 : List Nat)
+    (d1 : (decode b1).map (·.cp) = l1 ++ renderX i1) (d2 : (decode b2).map (·.cp) = l2 ++ renderX i2) :
+    build false fixed .expr pm b1 = build false fixed .expr pm b2 := by
+  rw [text_to_program e1 h1 n1 i1 t1 ok1 g1 l1 w1 pm p1 fixed b1 d1, text_to_program e2 h2 n2 i2 t2 ok2 g2 l2 w2 pm p2 fixed b2 d2, h]
+
+/-- **C03 (the lexer reads back what was written).**  Not only expressions: ANY sequence of written tokens —
+    numerals (digits and points, also beginning with the point), literals, the operator signs and names, `( ) , [ ] | @`, `/`, `//`, `..`, `.`, `*` as operator or
+    as wildcard, names with or without a prefix, function names, `current` — with any white space between them (none where
+    the next character cannot continue the token) that respects the §3.7 context conditions (`ctxOK`) lexes to
+    exactly those tokens followed by the end-of-input token: white space between tokens is insignificant. -/
+theorem C03_lexer_reads_back (strict : Bool) (pm : PfxMap) (items : List Item) (lead : List Rune)
+    (hl : ∀ x ∈ lead, isWS x = true) (hok : ∀ i ∈ items, i.ok) (hgl : glued items)
+    (hctx : ctxOK none (items.map (·.tok))) (hpf : ∀ i ∈ items, ∀ p l, i.tok = .nametest p l → pfxOk pm p = true) (runes : List SrcRune)
+    (hr : runes.map (·.cp) = lead ++ renderX items) :
+    (lexAllAux strict .expr pm (runes.length + 2) { line := runes }).1.map (·.tok) = items.map (·.tok) ++ [.eof] := by
+  have hlen : items.length < runes.length + 2 := by
+    have h1 := renderX_length items hok
+    have h2 := congrArg List.length hr
+    simp at h2
+    omega
+  exact lex_items strict pm items (runes.length + 2) { line := runes } lead hlen hl (by simpa [strm] using hr) rfl hok hgl hctx hpf
+
+/-- every function of the table but `current` (a token of its own) has a written form -/
+theorem C03_function_names (fn : Fn) (h : fn ≠ .current) : Writes (.func fn) (strR fn.name) := by
+  apply Writes.func
+  cases fn <;> first | exact absurd rfl h | decide +kernel
+
+/-- non-vacuity: `1-1*1` (nothing between the tokens) and `1 - 1 * 1\n` are texts of one tree -/
+def exE1 : PE := .bin .sub (.num SF.one) (.bin .mul (.num SF.one) (.num SF.one))
+def exT1 : List Item :=
+  [⟨.num SF.one, [49], []⟩, ⟨.ch (chr '-'), [45], []⟩, ⟨.num SF.one, [49], []⟩, ⟨.ch (chr '*'), [42], []⟩,
+   ⟨.num SF.one, [49], []⟩]
+def exT2 : List Item :=
+  [⟨.num SF.one, [49], [32]⟩, ⟨.ch (chr '-'), [45], [32]⟩, ⟨.num SF.one, [49], [32]⟩, ⟨.ch (chr '*'), [42], [9, 32]⟩,
+   ⟨.num SF.one, [49], [10]⟩]
+theorem one_written : Writes (.num SF.one) [49] := Writes.num 49 [] SF.one (by decide) (by simp) (by decide +kernel)
+theorem exT1_ok : exT1.map (·.tok) = exE1.toks ∧ (∀ i ∈ exT1, i.ok) ∧ glued exT1 ∧ exE1.fits 0 := by
+  refine ⟨rfl, ?_, ?_, by simp [exE1, PE.fits, level]⟩
+  · intro i hi
+    simp only [exT1, List.mem_cons, List.mem_nil_iff, or_false] at hi
+    rcases hi with rfl | rfl | rfl | rfl | rfl
+    · exact ⟨one_written, by simp⟩
+    · exact ⟨Writes.sym _ (by decide), by simp⟩
+    · exact ⟨one_written, by simp⟩
+    · exact ⟨Writes.star, by simp⟩
+    · exact ⟨one_written, by simp⟩
+  · simp [exT1, glued, renderX, After, follow, isNumChar, isDigitR, chr]
+theorem exT2_ok : exT2.map (·.tok) = exE1.toks ∧ (∀ i ∈ exT2, i.ok ∧ i.sep ≠ []) := by
+  refine ⟨rfl, ?_⟩
+  intro i hi
+  simp only [exT2, List.mem_cons, List.mem_nil_iff, or_false] at hi
+  rcases hi with rfl | rfl | rfl | rfl | rfl
+  · exact ⟨⟨one_written, by simp [isWS]⟩, by simp⟩
+  · exact ⟨⟨Writes.sym _ (by decide), by simp [isWS]⟩, by simp⟩
+  · exact ⟨⟨one_written, by simp [isWS]⟩, by simp⟩
+  · exact ⟨⟨Writes.star, by simp [isWS]⟩, by simp⟩
+  · exact ⟨⟨one_written, by simp [isWS]⟩, by simp⟩
+/-- the text "1-1*1" builds the program  1 1 1 mul sub store -/
+example (pm : PfxMap) (fixed : Bool) :
+    build false fixed .expr pm [49, 45, 49, 42, 49] = .machine (exE1.tree.code ++ [.store]) :=
+  C03_text_to_program_ascii exE1 exT1_ok.2.2.2 (by simp [exE1, PE.lexable]) exT1 exT1_ok.1 exT1_ok.2.1 exT1_ok.2.2.1 [] (by simp) pm
+    (by intro i hi p l e; simp only [exT1, List.mem_cons, List.mem_nil_iff, or_false] at hi; rcases hi with rfl | rfl | rfl | rfl | rfl <;> simp at e) fixed
+    (by simp [exT1, renderX])
+
+/-- … and with a path: the text "../a+1" builds  .. a evalLocPath 1 add store -/
+def exE2 : PE := .bin .add (.path (.rel .up) [.name [] [97]]) (.num SF.one)
+def exT3 : List Item :=
+  [⟨.dotdot, [46, 46], []⟩, ⟨.ch (chr '/'), [47], []⟩, ⟨.nametest [] [97], [97], []⟩, ⟨.ch (chr '+'), [43], []⟩,
+   ⟨.num SF.one, [49], []⟩]
+theorem exT3_ok : exT3.map (·.tok) = exE2.toks ∧ (∀ i ∈ exT3, i.ok) ∧ glued exT3 ∧ exE2.fits 0 ∧ exE2.lexable := by
+  refine ⟨rfl, ?_, ?_, by simp [exE2, PE.fits, level], by simp [exE2, PE.lexable]⟩
+  · intro i hi
+    simp only [exT3, List.mem_cons, List.mem_nil_iff, or_false] at hi
+    rcases hi with rfl | rfl | rfl | rfl | rfl
+    · exact ⟨Writes.dotdot, by simp⟩
+    · exact ⟨Writes.slash, by simp⟩
+    · exact ⟨Writes.name [97] (by decide), by simp⟩
+    · exact ⟨Writes.sym _ (by decide), by simp⟩
+    · exact ⟨one_written, by simp⟩
+  · simp [exT3, glued, renderX, After, follow, isNumChar, isDigitR, nameCharCommon, nameStartCommon, chr]
+example (pm : PfxMap) (fixed : Bool) :
+    build false fixed .expr pm [46, 46, 47, 97, 43, 49] = .machine (exE2.tree.code ++ [.store]) :=
+  C03_text_to_program_ascii exE2 exT3_ok.2.2.2.1 exT3_ok.2.2.2.2 exT3 exT3_ok.1 exT3_ok.2.1 exT3_ok.2.2.1 [] (by simp) pm
+    (by intro i hi p l e; simp only [exT3, List.mem_cons, List.mem_nil_iff, or_false] at hi
+        rcases hi with rfl | rfl | rfl | rfl | rfl <;> simp at e
+        rw [e.1]; exact pfxOk_nil pm) fixed (by simp [exT3, renderX])
 
 end YV.C03
